@@ -10,7 +10,7 @@ classes and spellings of the tokens (`SEv`), never a position, a file name or a 
 namespace PycModel.C17
 open PycModel
 
-variable {ty : String → Bool}
+variable {env : Env}
 
 mutual
 /-- drop every coordinate -/
@@ -72,7 +72,7 @@ coordinates are erased. -/
 theorem redundant_parentheses_change_only_coordinates (e : E) (m : Nat) (hwf0 : WFE 0 e) (hwf : WFE m e)
     (s1 s2 : PState) (stop : Tk) (rest1 rest2 : List Tk)
     (hstop1 : binPrec stop.1 = none) (hstop2 : stop.1 ∉ postfixStarters)
-    (h1 : SeesT ty s1 ((E.paren e).flat ++ stop :: rest1)) (h2 : SeesT ty s2 (e.flat ++ stop :: rest2))
+    (h1 : SeesT env s1 ((E.paren e).flat ++ stop :: rest1)) (h2 : SeesT env s2 (e.flat ++ stop :: rest2))
     (F : Nat) (hF : (E.paren e).fuel ≤ F) :
     ∃ v1 v2 s1' s2', run F (.binaryExpression m none) s1 = .ok v1 s1' ∧
       run F (.binaryExpression m none) s2 = .ok v2 s2' ∧ erase v1 = erase v2 := by
@@ -148,7 +148,7 @@ comma; any size): what `_parse_expression` returns for `( e )` and for `e`, from
 see them, are the same tree once coordinates are erased. -/
 theorem redundant_parentheses_change_only_coordinates_full (e : X) (hwf : WFX 0 e)
     (s1 s2 : PState) (stop : Tk) (rest1 rest2 : List Tk) (hstop : StopX stop.1)
-    (h1 : SeesT ty s1 ((X.paren e).flat ++ stop :: rest1)) (h2 : SeesT ty s2 (e.flat ++ stop :: rest2))
+    (h1 : SeesT env s1 ((X.paren e).flat ++ stop :: rest1)) (h2 : SeesT env s2 (e.flat ++ stop :: rest2))
     (F : Nat) (hF : (X.paren e).fuel ≤ F) :
     ∃ v1 v2 s1' s2', run F .expression s1 = .ok v1 s1' ∧ run F .expression s2 = .ok v2 s2' ∧
       erase v1 = erase v2 := by
